@@ -184,6 +184,18 @@ func (e *Env) discharge(ob *Obligation) {
 	if first > 2500 {
 		first = 2500
 	}
+	if e.w.knownObligations[ob.Name] {
+		// a recorded known finding: one attempt only (it is expected not to discharge)
+		solverSlots <- struct{}{}
+		res := runSolver(context.Background(), solvers[3], script, first)
+		<-solverSlots
+		ob.Verdict, ob.Solver, ob.Time = res.Verdict.String(), res.Solver, res.Time
+		ob.OK = ob.Verdict == ob.Expect
+		if res.Verdict == Sat {
+			ob.Model = res.Model
+		}
+		return
+	}
 	res := runSolver(context.Background(), solvers[0], script, first)
 	<-solverSlots
 	if res.Verdict == Unknown {
